@@ -8,14 +8,84 @@ use crate::model::{Cfg, Sym};
 use std::collections::{BTreeMap, HashMap};
 
 /// Lookahead sets are bit sets over terminal indices; bit `cfg.nt` is end of input.
-pub const MAX_T: usize = 126;
+pub const LA_WORDS: usize = 5;
+pub const MAX_T: usize = 64 * LA_WORDS - 2;
 
 /// A set of lookaheads (terminal indices and end of input) as a bit set.
-pub type La = u128;
+#[derive(Clone, Copy, PartialEq, Eq, Hash, PartialOrd, Ord, Default)]
+pub struct La(pub [u64; LA_WORDS]);
+
+impl La {
+    pub const EMPTY: La = La([0; LA_WORDS]);
+    #[inline]
+    pub fn is_empty(&self) -> bool {
+        self.0.iter().all(|w| *w == 0)
+    }
+    #[inline]
+    pub fn has(&self, i: usize) -> bool {
+        self.0[i / 64] >> (i % 64) & 1 == 1
+    }
+    #[inline]
+    pub fn insert(&mut self, i: usize) {
+        self.0[i / 64] |= 1u64 << (i % 64);
+    }
+    /// Is `other` a subset of `self`?
+    #[inline]
+    pub fn includes(&self, other: La) -> bool {
+        self.0.iter().zip(other.0.iter()).all(|(a, b)| a | b == *a)
+    }
+    pub fn len(&self) -> usize {
+        self.0.iter().map(|w| w.count_ones() as usize).sum()
+    }
+    pub fn iter(&self) -> impl Iterator<Item = usize> + '_ {
+        (0..64 * LA_WORDS).filter(move |i| self.has(*i))
+    }
+}
+
+impl std::fmt::Debug for La {
+    fn fmt(&self, f: &mut std::fmt::Formatter<'_>) -> std::fmt::Result {
+        f.debug_set().entries(self.iter()).finish()
+    }
+}
+
+impl std::ops::BitOr for La {
+    type Output = La;
+    #[inline]
+    fn bitor(self, o: La) -> La {
+        let mut r = self;
+        for (a, b) in r.0.iter_mut().zip(o.0.iter()) {
+            *a |= *b;
+        }
+        r
+    }
+}
+
+impl std::ops::BitOrAssign for La {
+    #[inline]
+    fn bitor_assign(&mut self, o: La) {
+        for (a, b) in self.0.iter_mut().zip(o.0.iter()) {
+            *a |= *b;
+        }
+    }
+}
+
+impl std::ops::BitAnd for La {
+    type Output = La;
+    #[inline]
+    fn bitand(self, o: La) -> La {
+        let mut r = self;
+        for (a, b) in r.0.iter_mut().zip(o.0.iter()) {
+            *a &= *b;
+        }
+        r
+    }
+}
 
 #[inline]
 pub fn bit(i: usize) -> La {
-    (1 as La) << i
+    let mut l = La::EMPTY;
+    l.insert(i);
+    l
 }
 
 #[derive(Clone, Debug)]
@@ -26,7 +96,7 @@ pub struct First {
 }
 
 pub fn first_sets(cfg: &Cfg) -> First {
-    let mut first: Vec<La> = vec![0; cfg.nn];
+    let mut first: Vec<La> = vec![La::EMPTY; cfg.nn];
     let mut nullable = vec![false; cfg.nn];
     let mut rounds = 0;
     loop {
@@ -34,11 +104,11 @@ pub fn first_sets(cfg: &Cfg) -> First {
         let mut changed = false;
         for r in &cfg.rules {
             let mut all_nullable = true;
-            let mut add: La = 0;
+            let mut add: La = La::EMPTY;
             for s in &r.rhs {
                 match s {
                     Sym::T(t) => {
-                        add |= bit(*t);
+                        add.insert(*t);
                         all_nullable = false;
                         break;
                     }
@@ -51,7 +121,7 @@ pub fn first_sets(cfg: &Cfg) -> First {
                     }
                 }
             }
-            if first[r.lhs] | add != first[r.lhs] {
+            if !first[r.lhs].includes(add) {
                 first[r.lhs] |= add;
                 changed = true;
             }
@@ -73,7 +143,7 @@ pub fn first_sets(cfg: &Cfg) -> First {
 
 /// FIRST of a symbol string followed by the lookahead set `la`.
 pub fn first_of_seq(seq: &[Sym], la: La, f: &First) -> La {
-    let mut out: La = 0;
+    let mut out: La = La::EMPTY;
     for s in seq {
         match s {
             Sym::T(t) => return out | bit(*t),
@@ -142,12 +212,12 @@ impl<'a> Ctx<'a> {
         let mut map: BTreeMap<Core, La> = BTreeMap::new();
         let mut work: Vec<Core> = vec![];
         for (c, la) in kernel {
-            if *la == 0 {
+            if la.is_empty() {
                 continue;
             }
-            let e = map.entry(*c).or_insert(0);
-            if *e | la != *e {
-                *e |= la;
+            let e = map.entry(*c).or_insert(La::EMPTY);
+            if !e.includes(*la) {
+                *e |= *la;
                 work.push(*c);
             }
         }
@@ -159,7 +229,7 @@ impl<'a> Ctx<'a> {
             if d < rhs.len() {
                 if let Sym::N(b) = rhs[d] {
                     let las = first_of_seq(&rhs[d + 1..], la, &self.first);
-                    if las == 0 {
+                    if las.is_empty() {
                         continue;
                     }
                     for r2 in &self.by_lhs[b] {
@@ -167,8 +237,8 @@ impl<'a> Ctx<'a> {
                             rule: *r2 as u32,
                             dot: 0,
                         };
-                        let e = map.entry(c2).or_insert(0);
-                        if *e | las != *e {
+                        let e = map.entry(c2).or_insert(La::EMPTY);
+                        if !e.includes(las) {
                             *e |= las;
                             work.push(c2);
                         }
@@ -271,12 +341,12 @@ pub fn merge_by_core(lr1: &Automaton) -> (Automaton, Vec<usize>) {
             None => {
                 let k = states.len();
                 index.insert(cores, k);
-                states.push(st.iter().map(|(c, _)| (*c, 0 as La)).collect());
+                states.push(st.iter().map(|(c, _)| (*c, La::EMPTY)).collect());
                 k
             }
         };
         for (slot, (_, la)) in states[k].iter_mut().zip(st.iter()) {
-            slot.1 |= la;
+            slot.1 |= *la;
         }
         of_lr1.push(k);
     }
@@ -325,7 +395,7 @@ pub fn action_sets(ctx: &Ctx, a: &Automaton) -> Vec<Vec<Vec<Act>>> {
                 row[nt].push(Act::Accept);
             } else {
                 for l in 0..=nt {
-                    if la & bit(l) != 0 {
+                    if la.has(l) {
                         row[l].push(Act::Reduce(c.rule as usize));
                     }
                 }
@@ -431,7 +501,7 @@ pub fn lr_parse(
                 if la < nt && rhs[d] == Sym::T(la) {
                     acts.push(Act::Shift(a.trans[s][&Sym::T(la)]));
                 }
-            } else if las & bit(la) != 0 {
+            } else if las.has(la) {
                 if c.rule == ctx.aug() {
                     acts.push(Act::Accept);
                 } else {
@@ -565,7 +635,7 @@ pub fn analyse(cfg: &Cfg) -> Analysis {
 
 pub fn follow_sets(ctx: &Ctx) -> Vec<La> {
     let cfg = ctx.cfg;
-    let mut follow: Vec<La> = vec![0; cfg.nn];
+    let mut follow: Vec<La> = vec![La::EMPTY; cfg.nn];
     follow[cfg.start] |= ctx.eof_bit();
     loop {
         let mut changed = false;
@@ -573,7 +643,7 @@ pub fn follow_sets(ctx: &Ctx) -> Vec<La> {
             for (i, s) in r.rhs.iter().enumerate() {
                 if let Sym::N(b) = s {
                     let add = first_of_seq(&r.rhs[i + 1..], follow[r.lhs], &ctx.first);
-                    if follow[*b] | add != follow[*b] {
+                    if !follow[*b].includes(add) {
                         follow[*b] |= add;
                         changed = true;
                     }
@@ -677,7 +747,7 @@ impl Reference<'_> {
                 let rhs = self.ctx.rhs(c.rule);
                 if c.dot as usize == rhs.len() && c.rule != self.ctx.aug() {
                     let f = follow[self.ctx.cfg.rules[c.rule as usize].lhs];
-                    if la & f != f {
+                    if !la.includes(f) {
                         return true;
                     }
                 }
